@@ -1156,7 +1156,7 @@ class Interp:
         txt, uids, valid = self.resolve_set(sess, ms, op)
         synced = self.view_synced(sess, box)
         pend_before = ms.maybe_pending
-        vlen = len(sess.view or [])
+        vlen = list(sess.view or [])  # (the whole view: an EXPUNGE plus an EXISTS leave the length unchanged)
         tag = None
         if self.tag_stores and how in "+=" and getattr(ms, "sel_uvv", None) is not None:
             # a keyword no other command uses: wherever it turns up at the end is where this STORE landed
@@ -1172,7 +1172,7 @@ class Interp:
         r = await self.run_cmd(sess, ms, f"{'UID ' if op.get('uid') else ''}STORE {txt} {item} ({' '.join(flags)})")
         if r.status is None or ms.dead:
             return
-        if ("*" in txt or valid is False) and len(sess.view or []) != vlen:
+        if ("*" in txt or valid is False) and list(sess.view or []) != vlen:
             uids = None  # the set was evaluated after the mailbox grew during the command
             valid = None
         has_recent = "\\recent" in [canon_flag(f) for f in flags]
@@ -1251,13 +1251,13 @@ class Interp:
             await self.run_cmd(sess, ms, f"{'UID ' if op.get('uid') else ''}FETCH 1 {items}")
             return
         txt, uids, valid = self.resolve_set(sess, ms, op)
-        vlen = len(sess.view or [])
+        vlen = list(sess.view or [])  # (the whole view: an EXPUNGE plus an EXISTS leave the length unchanged)
         pre_view = set(c for c in (sess.view or []) if c is not None)
         r = await self.run_cmd(sess, ms, f"{'UID ' if op.get('uid') else ''}FETCH {txt} {items}")
         if r.status is None or ms.dead:
             return
         self.check_uid_fetch_answer(sess, ms, box, op, txt, items, uids, valid, pre_view, r)
-        if ("*" in txt or valid is False) and len(sess.view or []) != vlen:
+        if ("*" in txt or valid is False) and list(sess.view or []) != vlen:
             uids = [None]
             valid = None
         peek = "PEEK" in items.upper() or not re.search(r"BODY\[|RFC822(?!\.SIZE|\.HEADER)", items.upper())
@@ -1361,12 +1361,21 @@ class Interp:
         keys = self.live_keys(fake)
         self.C("c13_disk_flags_quiescence")
         live = set(keys)
-        stale = {n: sorted(set(v) - live) for n, v in seqs.items() if set(v) - live}
+        path = os.path.join(self.maildir, name)
+        # (an MH agent marks its message `unseen` in a second step: if the server expunged the message in
+        # between, that stale mark is the agent's doing)
+        agent = {int(k_) for p_, k_ in self.delivered if p_ == path}
+        stale = {}
+        for n, v in seqs.items():
+            gone = set(v) - live
+            if n == "unseen":
+                gone -= agent
+            if gone:
+                stale[n] = sorted(gone)
         if stale:
             self.V("C13", "mh_sequences_stale_key", mailbox=name, stale=stale, live=keys, why="quiescence")
         if len(keys) != len(here):
             return  # a delivery of this very second is not visible yet
-        path = os.path.join(self.maildir, name)
         had_delivery = any(p_ == path for p_, _ in self.delivered)
         rev = {v: k for k, v in FLAG_TO_SEQ.items()}
         for key, uid in zip(keys, sorted(here)):
@@ -1438,6 +1447,49 @@ class Interp:
             for rec in self.unanswered:
                 if rec["uvv"] == uvv and rec["uid"] in here:
                     self.V("C03", "uid_fetch_missing", session=rec["session"], cmd=rec["cmd"], uid=rec["uid"], mailbox=name, mode="concurrent")
+
+    async def op_alias_probe(self, op):
+        """C04 over 'any syntactically valid keyword atom': a keyword whose name happens to be the
+        MH sequence name of a system flag must not be that system flag."""
+        sess, ms = self.sess(op)
+        if sess is None or ms.dead or ms.selected is None or ms.readonly or not sess.view:
+            return
+        box = ms.selected
+        n = min(max(1, int(op.get("pos", 1))), len(sess.view))
+        kw = op["kw"]
+
+        async def flags_of():
+            r_ = await self.run_cmd(sess, ms, f"FETCH {n} (FLAGS)")
+            if r_.status is None or not r_.ok:
+                return None
+            for u in r_.untagged:
+                if u.kind == "FETCH" and u.num == n:
+                    try:
+                        it = fetch_items(u)
+                    except Exception:
+                        continue
+                    if "FLAGS" in it:
+                        return {canon_flag(x) for x in it["FLAGS"]} - {"\\recent"}
+            return None
+
+        before = await flags_of()
+        if before is None or ms.dead:
+            return
+        r = await self.run_cmd(sess, ms, f"STORE {n} +FLAGS.SILENT ({kw})")
+        if r.status is None or ms.dead:
+            return
+        after = await flags_of()
+        box.uncertain = True
+        ms.know = {}
+        self.others_changed(box, sess.sid)
+        if after is not None:
+            self.C("c04_keyword_alias")
+            self.ctx.nontrivial = True
+            sysb = {f for f in before if f.startswith("\\") or f == "unseen"}
+            sysa = {f for f in after if f.startswith("\\") or f == "unseen"}
+            if sysa != sysb:
+                self.V("C04", "keyword_aliases_system_flag", kw=kw, cmd=f"STORE {n} +FLAGS.SILENT ({kw})", reply=r.brief(), before=sorted(before), after=sorted(after))
+        await self.after_mutation([box], "store")
 
     async def op_search(self, op):
         sess, ms = self.sess(op)
@@ -1577,7 +1629,7 @@ class Interp:
             await self.run_cmd(sess, ms, f"{'UID ' if op.get('uid') else ''}{verb} 1 {quote(dstname)}")
             return
         txt, uids, valid = self.resolve_set(sess, ms, op)
-        vlen = len(sess.view or [])
+        vlen = list(sess.view or [])  # (the whole view: an EXPUNGE plus an EXISTS leave the length unchanged)
         view_before = list(sess.view or [])
         r = await self.run_cmd(sess, ms, f"{'UID ' if op.get('uid') else ''}{verb} {txt} {quote(dstname)}")
         if r.status is None or ms.dead:
@@ -1623,7 +1675,7 @@ class Interp:
             else:
                 uids, valid = [], False
             self.C("c01_flush_then_copy")
-        if ("*" in txt or valid is False) and len(sess.view or []) != vlen:
+        if ("*" in txt or valid is False) and list(sess.view or []) != vlen:
             uids = None
             valid = None
         boxes = [box] + ([dst] if dst is not None else [])
